@@ -316,9 +316,31 @@ def rule_client(ctx):
     spv = name_for(fn, "str(self.http_headers['sec-websocket-protocol'].strip())", canon)
     if spv.startswith("str("):
         spv = name_for(fn, "self.http_headers['sec-websocket-protocol'].strip()", canon)
-    ok = len(spn) == 1 and ("in", spv, ("e", "self.factory.protocols"), True) in mf.at(spn[0]) and \
-        ("lt", ("c", 1), ("e", f"{CNT}['sec-websocket-protocol']"), False) in mf.at(spn[0]) and norm.text(spn[0].ast.value) == spv
+    # the list the selection is checked against must be the list that was SENT: _actuallyStartHandshake stores what it writes into the
+    # Sec-WebSocket-Protocol header (the request options may differ from the factory's defaults)
+    ash = ctx.program.func(f"{WSC}._actuallyStartHandshake")
+    RO = ash.params()[1]
+    sent_attr = [norm.text(s_.targets[0]) for s_ in walk_no_defs(ash.node) if isinstance(s_, ast.Assign) and is_self_attr(s_.targets[0])
+                 and norm.text(s_.value) in (f"{RO}.protocols", f"list({RO}.protocols)", f"tuple({RO}.protocols)", f"{RO}.protocols[:]")]
+    hdr_from = any(isinstance(c, ast.Call) and isinstance(c.func, ast.Attribute) and c.func.attr == "join" and c.args and
+                   norm.text(c.args[0]) in [f"{RO}.protocols"] + sent_attr for c in ast.walk(ash.node))
+    inf = [f for f in (mf.at(spn[0]) if len(spn) == 1 else ()) if f[0] == "in" and f[1] == spv and f[3] and isinstance(f[2], tuple) and f[2][0] == "e"]
+    checked = inf[0][2][1] if inf else None
+    ok = len(spn) == 1 and checked is not None and ("lt", ("c", 1), ("e", f"{CNT}['sec-websocket-protocol']"), False) in mf.at(spn[0]) and norm.text(spn[0].ast.value) == spv
     ctx.ob("client: selected subprotocol must be one it requested, header single", ok, "subprotocol check changed", fn.loc())
+    ctx.ob("client: the list the selected subprotocol is checked against is the list it actually sent", ok and hdr_from and checked in sent_attr,
+           f"selection checked against `{checked}`, but the Sec-WebSocket-Protocol header is built from `{RO}.protocols` (stored as {sent_attr or 'nothing'}): with request "
+           f"options from onConnecting() a subprotocol that was never offered is accepted", fn.loc())
+    # the key the accept digest is computed from exists whenever a response is judged
+    cm = ctx.program.func(f"{WSC}._connectionMade")
+    init_key = any(isinstance(s_, ast.Assign) and is_self_attr(s_.targets[0], "websocket_key") and isinstance(s_.value, ast.Constant) and s_.value.value is None for s_ in walk_no_defs(cm.node))
+    uses = [n for n in g.stmt_nodes() if n.ast is not None and not isinstance(n.ast, (ast.FunctionDef, ast.AsyncFunctionDef)) and
+            any(isinstance(x, ast.Attribute) and norm.text(x) == "self.websocket_key" and isinstance(x.ctx, ast.Load) for x in ast.walk(n.ast)) and
+            not (n.kind == "test" and norm.atoms(n.ast, True, res) in ([("is", "self.websocket_key", ("c", None), True)], [("is", "self.websocket_key", ("c", None), False)]))]
+    okk = init_key and bool(uses) and all(norm.not_none_known(mf.at(n), "self.websocket_key") for n in uses)
+    ctx.ob("client: a response is judged only after the request (and its key) went out -- a response arriving earlier fails the handshake", okk,
+           "processHandshake reads self.websocket_key although no request may have been sent yet (onConnecting() still pending): AttributeError / TypeError "
+           "escapes to the networking framework instead of failing the handshake", fn.loc())
     for n in g.stmt_nodes():
         for c in node_calls(n):
             if self_call(c, "failHandshake"):
@@ -589,9 +611,10 @@ def rule_request(ctx):
     parsed = None
     for r in rets:
         for x in subterms(r):
-            if x[0] == "call" and x[1][0] == "g" and x[1][1].endswith("urlparse"):
+            if x[0] == "call" and x[1][0] == "g" and x[1][1].split(".")[-1] in ("urlparse", "urlsplit"):
                 parsed = x
-    ctx.require(parsed is not None, "parse_url: urlparse call not found")
+    ctx.require(parsed is not None, "parse_url: urlparse()/urlsplit() call not found")
+    splitter = parsed[1][1].split(".")[-1]
 
     def attr(n):
         return ("attr", parsed, n)
@@ -609,8 +632,11 @@ def rule_request(ctx):
             consts = {x[1] for x in subterms(res_t) if x[0] == "c"} - {None, "", "/", "?"}
             if calls:
                 probs.append(f"resource passes through {show(calls[0])[:70]}")
-            if leaves != {attr("path"), attr("query")}:
-                probs.append(f"resource built from {sorted(show(x) for x in leaves)}")
+            # urlparse() moves ";parameters" of the last path segment out of .path: the resource is complete only with .params put back
+            need = {attr("path"), attr("query")} | ({attr("params")} if splitter == "urlparse" else set())
+            if leaves != need:
+                probs.append(f"resource built from {sorted(show(x) for x in leaves)} of {splitter}(url)" +
+                             ("; urlparse() strips ';parameters' off the last path segment, so ws://host/p;v=1 is requested as /p" if splitter == "urlparse" else ""))
             if consts:
                 probs.append(f"resource contains the literal(s) {sorted(map(str, consts))}")
             # path first, then '?', then query
